@@ -661,6 +661,21 @@ def check_eshift(prog, rep):
             while not isinstance(st, ast.stmt):
                 st = parent(st)
             g = {(real(t), pol) for t, pol, _ in guards_at(fu, c)} | base_g
+            # unit resolution: a conjunction known to be false with all other operands known to be
+            # true makes the remaining operand false (`elif` after `if A and B:` under `A`)
+            for t_, pol_ in list(g):
+                if pol_:
+                    continue
+                try:
+                    te = ast.parse(t_, mode='eval').body
+                except SyntaxError:
+                    continue
+                if isinstance(te, ast.BoolOp) and isinstance(te.op, ast.And):
+                    ops_ = [[(real(x_[0]), x_[1]) for x_ in _test_atoms(o)] for o in te.values]
+                    unknown = [o for o in ops_ if not all(x in g for x in o)]
+                    if len(unknown) == 1 and len(unknown[0]) == 1:
+                        a, b = unknown[0][0]
+                        g.add((a, not b))
             shifted = any(t.endswith('E_shift is None') and not pol for t, pol in g)
             is_orth = {pol for t, pol in g if t.startswith('isinstance(') and
                        'OrthogonalNpcLinearOperator' in t}
